@@ -24,6 +24,7 @@ type verifPipe struct {
 	sent     chan struct{} // one token per Flush: the peer has received a request
 	inClosed bool
 	failClose bool
+	failOpens int // the next n Open calls fail
 }
 
 func newVerifPipe() *verifPipe {
@@ -90,6 +91,10 @@ func (p *verifPipe) Open() error {
 	p.opens++
 	if p.failOpen {
 		return errors.New("verif: open failed")
+	}
+	if p.failOpens > 0 {
+		p.failOpens--
+		return errors.New("verif: connection refused")
 	}
 	p.open = true
 	if p.inClosed {
